@@ -160,6 +160,8 @@ def _check(prog, rep):
 
 
 def run(prog, rep):
+    from . import optconv
+    optconv.check(prog, rep, 'C02')
     lemmas.load_all()
     guarded(rep, "C02.R1", SLOW, lambda: _check(prog, rep))
     for l in ("C07.R1", "C12.R6", "C12.R7"):
